@@ -138,8 +138,7 @@ def _build_with_raise(case, rec):
     return ns
 
 
-runlib._reap_children = _reap_counting
-runlib.build_namespace = _build_with_raise
+# (installed around each run by run_once and removed again: importing this module does not change runlib)
 
 
 def _settle_threads():
@@ -173,9 +172,13 @@ def run_once(case, factor=1.0):
         return orig_write(self, text)
     A.Writer.write = write
     _LEAK_WINDOW[0] = 1.5 * max(1.0, factor)
+    runlib._reap_children = _reap_counting
+    runlib.build_namespace = _build_with_raise
     try:
         obs = runlib.run_impl(case, watchdog=WATCHDOG[case['runner']] * factor, keep_raw=False)
     finally:
+        runlib._reap_children = _orig_reap
+        runlib.build_namespace = _orig_build
         A.Writer.write = orig_write
         _settle_threads()
         sys.stdout, sys.stderr = so, se
